@@ -198,6 +198,10 @@ func (reader *H264Reader) NextNAL() (*NAL, error) {
 	nal := newNal(reader.nalBuffer)
 	reader.nalBuffer = nil
 	nal.parseHeader()
+	if !reader.includeSEI && nal.UnitType == NalUnitTypeSEI {
+		// the last unit of the stream is filtered like any other
+		return nil, io.EOF
+	}
 
 	return nal, nil
 }
